@@ -412,6 +412,9 @@ class FnView:
                 return args[0][3][2]                             # NonZero::new(x).unwrap().get() == x
             if name.endswith("::max_value") and name.startswith("core::num::") and not args:
                 return ("const", "core::num::MAX")
+            if name.split("::")[-1] == "expect" and len(args) == 2 and ("option::Option" in name or "result::Result" in name):
+                # `x.expect("..")` == `x.unwrap()`: the same value, the same panic condition (only the message differs)
+                return ("call", name[:-len("expect")] + "unwrap", args[0])
             if name in MIN_FNS or name in FMIN_FNS:
                 return mk_bin("min", args[0], args[1])
             if name in MAX_FNS or name in FMAX_FNS:
